@@ -19,12 +19,13 @@
 // P:<type>:<hex> (WritePacket), N:<type>:<hex> (WritePacketNoFlush), W:<type>:<hex>:<hex> (WritePacket2),
 // F (Flush).  The harness always ends with a Flush.
 //
-// C40 ops:  req / preq / resp / presp / rt  (see verifHdr* below).
+// C40 ops:  req / preq / resp / presp / rt / e2e  (see vfHdr* below).
 package rpc
 
 import (
 	"bufio"
 	"bytes"
+	"context"
 	"crypto/aes"
 	"crypto/cipher"
 	"encoding/hex"
@@ -928,6 +929,119 @@ func vfHdrRoundTrip(f []string) string {
 	return fmt.Sprintf("ok %s %s ok %s %s", vfHex(wire), reqs, vfHex(rwire), vfParseClientResp(tl2, rwire))
 }
 
+// ------------------------------------------------------------------------------------------ C40 end to end
+
+// e2e <n> then n groups of 32 tokens (the fields of an rt op; the query id token is ignored, the client assigns
+// its own): sequential calls on ONE real rpc.Client against ONE real rpc.Server over loopback TCP; every
+// Response is recycled with PutResponse before the next call.  Per call the result shows what the handler saw
+// and what the caller saw:  <actor> <tl2> <tag> <body> <req extra> => <B:body | E:code:desc:rest> <resp extra>
+type vfE2EScript struct {
+	respBody  []byte
+	errTok    string
+	respExtra ResponseExtra
+	seen      string
+}
+
+var vfE2E struct {
+	once   sync.Once
+	err    error
+	addr   string
+	client Client
+	mu     sync.Mutex
+	cur    *vfE2EScript
+	lastR  *Response
+	reused int
+}
+
+func vfE2EInit() {
+	ln, err := net.Listen("tcp4", "127.0.0.1:0")
+	if err != nil {
+		vfE2E.err = err
+		return
+	}
+	vfE2E.addr = ln.Addr().String()
+	nolog := func(format string, args ...any) {}
+	srv := NewServer(ServerWithLogf(nolog), ServerWithHandler(func(ctx context.Context, hctx *HandlerContext) error {
+		vfE2E.mu.Lock()
+		sc := vfE2E.cur
+		vfE2E.mu.Unlock()
+		if sc == nil {
+			return fmt.Errorf("no script")
+		}
+		sc.seen = fmt.Sprintf("%d %s %d %s %s", uint64(hctx.actorID), vfBool(hctx.bodyFormatTL2), hctx.reqTag,
+			vfHex(hctx.Request), vfReqExtraString(&hctx.RequestExtra))
+		hctx.Response = append(hctx.Response, sc.respBody...)
+		hctx.ResponseExtra = sc.respExtra
+		if sc.errTok != "-" {
+			p := strings.Split(sc.errTok, ":")
+			return &Error{Code: int32(uint32(vfU64(p[0]))), Description: string(vfSub(p[1]))}
+		}
+		return nil
+	}))
+	go func() { _ = srv.Serve(ln) }()
+	vfE2E.client = NewClient(ClientWithLogf(nolog))
+}
+
+func vfHdrE2E(f []string) string {
+	vfE2E.once.Do(vfE2EInit)
+	if vfE2E.err != nil {
+		return "driver-error listen: " + vfE2E.err.Error()
+	}
+	n := int(vfU64(f[1]))
+	var out []string
+	for i := 0; i < n; i++ {
+		g := f[2+32*i : 2+32*(i+1)]
+		sc := &vfE2EScript{respBody: vfUnhex(g[18]), errTok: g[19], respExtra: vfParseRespExtra(g[20:32])}
+		vfE2E.mu.Lock()
+		vfE2E.cur = sc
+		vfE2E.mu.Unlock()
+		req := vfE2E.client.GetRequest()
+		req.ActorID = int64(vfU64(g[1]))
+		req.BodyFormatTL2 = g[2] == "1"
+		req.Body = append(req.Body, vfUnhex(g[3])...)
+		req.Extra = vfParseReqExtra(g[4:18])
+		// a context without deadline: a deadline would be written into the request extra (fillRequestTimeout)
+		type doRes struct {
+			resp *Response
+			err  error
+		}
+		ch := make(chan doRes, 1)
+		go func() {
+			r, e := vfE2E.client.Do(context.Background(), "tcp4", vfE2E.addr, req)
+			ch <- doRes{r, e}
+		}()
+		var resp *Response
+		var err error
+		select {
+		case r := <-ch:
+			resp, err = r.resp, r.err
+		case <-time.After(30 * time.Second):
+			return "driver-error e2e call timed out"
+		}
+		var rpcErr *Error
+		var seenByCaller string
+		switch {
+		case resp == nil:
+			seenByCaller = fmt.Sprintf("fail %v", err)
+		case err == nil:
+			seenByCaller = fmt.Sprintf("B:%s %s", vfHex(resp.Body), vfRespExtraString(&resp.Extra))
+		case errors.As(err, &rpcErr):
+			seenByCaller = fmt.Sprintf("E:%d:%s:%s %s", uint32(rpcErr.Code), vfSubHex([]byte(rpcErr.Description)), vfSubHex(resp.Body), vfRespExtraString(&resp.Extra))
+		default:
+			seenByCaller = fmt.Sprintf("fail %v", strings.ReplaceAll(err.Error(), " ", "_"))
+		}
+		if resp != nil {
+			if resp == vfE2E.lastR {
+				vfE2E.reused++
+			}
+			vfE2E.lastR = resp
+			vfE2E.client.PutResponse(resp)
+		}
+		out = append(out, sc.seen+" => "+seenByCaller)
+	}
+	return "ok " + strings.Join(out, " ; ") + fmt.Sprintf(" | pooled_response_reused_total=%d", vfE2E.reused)
+}
+
 // ------------------------------------------------------------------------------------------ driver
 
 func vfRun(line string) (res string) {
@@ -959,6 +1073,8 @@ func vfRun(line string) (res string) {
 		return vfHdrPresp(f)
 	case "rt":
 		return vfHdrRoundTrip(f)
+	case "e2e":
+		return vfHdrE2E(f)
 	}
 	return "driver-error unknown op " + f[0]
 }
